@@ -477,6 +477,8 @@ func (p *Parser) parseMultiSelectHash() (ASTNode, error) {
 				return ASTNode{}, nil
 			}
 			break
+		} else {
+			return ASTNode{}, p.syntaxError("Expected tComma or tRbrace, received: " + p.current().String())
 		}
 	}
 	return ASTNode{
